@@ -91,6 +91,10 @@ var scenarios = []scenario{
 		indi("P1", "Alice /Archer/", "3 Mar 1801", "", uidA) + indi("P9", "Boris /Bellamy/", "17 Jul 1805", ""),
 		indi("P7", "Xavier /Quill/", "1 Jan 1900", "", uidA) + indi("P1", "Alice /Archer/", "3 Mar 1802", ""),
 		"unique identifier and pointer disagree: left P1 shares its _UID with right P7 and its (trusted) pointer with right P1; the unique-id stage has to be finished before the pointer stage looks at what was sent", 0, 0},
+	{"S15",
+		indi("I1", "Alice /Archer/", "3 Mar 1801", "9 Sep 1870"),
+		indi("J1", "Alice /Archer/", "13 Mar 1802", "9 Sep 1870") + indi("J2", "Alice /Archer/", "3 Mar 1802", "9 Sep 1870"),
+		"two candidates for one left individual whose scores differ only in the third decimal (0.9432 and 0.9444): no tie, the result must not depend on the order of arrival", 0, 0},
 	{"S13",
 		indi("X0", "Zed /Quux/", "1 Jan 1700", "") + indi("P1", "Alice /Archer/", "3 Mar 1801", "", uidA) + indi("P2", "Boris /Bellamy/", "17 Jul 1805", ""),
 		indi("P1", "Alice /Archer/", "3 Mar 1802", "", uidA) + indi("P2", "Boris /Bellamy/", "17 Jul 1806", ""),
@@ -619,7 +623,7 @@ func main() {
 	vlib.Main(&vlib.Check{
 		ID:    "C11",
 		Level: "model_checking",
-		Rule: "executions of the real, instrumented IndividualNodes.Compare under the vsched cooperative scheduler: for every scenario (17 tiny colliding input pairs, two of them with lists that are only a part of their documents) x configuration (Jobs, thresholds, channel capacity 1, sync.Map range order, base scheduler) every schedule with at most d deviations from the default scheduler (delay bounding; d per configuration) is run to completion and judged: termination, valid one-to-one matching, justified pairs, equality with the sequential result when tie-free, vector-clock data-race monitor. " +
+		Rule: "executions of the real, instrumented IndividualNodes.Compare under the vsched cooperative scheduler: for every scenario (18 tiny colliding input pairs, two of them with lists that are only a part of their documents) x configuration (Jobs, thresholds, channel capacity 1, sync.Map range order, base scheduler) every schedule with at most d deviations from the default scheduler (delay bounding; d per configuration) is run to completion and judged: termination, valid one-to-one matching, justified pairs, equality with the sequential result when tie-free, vector-clock data-race monitor. " +
 			"states = distinct global operation traces (hash of the sequence of scheduled operations); distinct_nontrivial counts the same.",
 		Assumptions: []string{
 			"scheduling points sit at the hooked synchronisation operations (go, channel send/receive/close/select, sync.Mutex/WaitGroup/Map, time.Sleep as a yield); for race-free code this covers every behaviour of the Go memory model within the deviation bound; data races are reported by the happens-before monitor instead of being explored",
